@@ -21,7 +21,7 @@ Local Open Scope Z_scope.
 
 
 def natlist(xs):
-    return "[" + "; ".join(f"{int(x)}%nat" for x in xs) + "]"
+    return "[" + "; ".join(lib.coq_nat(x) for x in xs) + "]"
 
 
 def shape_dims(kind, q, d):
@@ -121,8 +121,8 @@ def coq_config(c):
         base2 = [Fr(c["base"]) ** 2]
     else:
         base2 = [Fr(b) ** 2 for b in c["base"]]
-    ode = f"(@mkOde Qc {c['ord']}%nat [" + "; ".join(coq_poly(p) for p in c["f"]) + "])"
-    return (f"(@mkCfg Qc (mkShape {KIND_COQ[kind]} {q}%nat {d}%nat) {STRAT_COQ[c['strat']]} {CAL_COQ[c['calib']]} "
+    ode = f"(mkOdeq {lib.coq_nat(c['ord'])} [" + "; ".join(coq_poly(p) for p in c["f"]) + "])"
+    return (f"(mkCfgq (mkShape {KIND_COQ[kind]} {lib.coq_nat(q)} {lib.coq_nat(d)}) {STRAT_COQ[c['strat']]} {CAL_COQ[c['calib']]} "
             f"{LIN_COQ[c['lin']]} {ode} {lib.qclist(base2)} {lib.qclit(Fr(c['damp']) ** 2)})")
 
 
@@ -137,16 +137,16 @@ def coq_u0(c):
     if kind == "dense":
         mean = [[tc[i][a]] for i in range(q + 1) for a in range(d)]
         var = [Fr(std[i][a]) ** 2 for i in range(q + 1) for a in range(d)]
-        return f"[@mkN Qc {lib.qcmat(mean)} {lib.qcmat(diagm(var))}]"
+        return f"[mkNq {lib.qcmat(mean)} {lib.qcmat(diagm(var))}]"
     if kind == "iso":
         mean = [[tc[i][a] for a in range(d)] for i in range(q + 1)]
         var = [Fr(std[i]) ** 2 for i in range(q + 1)]
-        return f"[@mkN Qc {lib.qcmat(mean)} {lib.qcmat(diagm(var))}]"
+        return f"[mkNq {lib.qcmat(mean)} {lib.qcmat(diagm(var))}]"
     blocks = []
     for a in range(d):
         mean = [[tc[i][a]] for i in range(q + 1)]
         var = [Fr(std[i][a]) ** 2 for i in range(q + 1)]
-        blocks.append(f"@mkN Qc {lib.qcmat(mean)} {lib.qcmat(diagm(var))}")
+        blocks.append(f"mkNq {lib.qcmat(mean)} {lib.qcmat(diagm(var))}")
     return "[" + "; ".join(blocks) + "]"
 
 
@@ -242,11 +242,11 @@ def _gram_fr(L):
 
 
 def coq_raw_normal(b):
-    return f"@mkN Qc {lib.qcmat(b['m'])} {lib.qcmat(_gram_fr(b['L']))}"
+    return f"mkNq {lib.qcmat(b['m'])} {lib.qcmat(_gram_fr(b['L']))}"
 
 
 def coq_raw_cond(b):
-    return (f"@mkC Qc {lib.qcmat(b['A'])} {lib.qcmat(b['b'])} {lib.qcmat(_gram_fr(b['L']))} "
+    return (f"mkCq {lib.qcmat(b['A'])} {lib.qcmat(b['b'])} {lib.qcmat(_gram_fr(b['L']))} "
             f"{lib.qclist(b['tl'])} {lib.qclist(b['to'])}")
 
 
@@ -261,8 +261,8 @@ def coq_state(c, e):
     run2 = [Fr(x) ** 2 for x in e["run"]] if e["run"] is not None else [Fr(0)] * nb
     if len(run2) < nb:
         run2 = run2 * nb
-    return (f"(mk_state {coq_config(c)} {lib.qclit(e['t'])} {u} {pc} {lib.qclist(out2)} {lib.qclist(run2)} "
-            f"{int(e['ndata'])}%nat {int(e['nsteps'])}%nat)")
+    return (f"(mk_stateq {coq_config(c)} {lib.qclit(e['t'])} {u} {pc} {lib.qclist(out2)} {lib.qclist(run2)} "
+            f"{lib.coq_nat(e['ndata'])} {lib.coq_nat(e['nsteps'])})")
 
 
 def coq_step(c, e, dt):
@@ -287,3 +287,10 @@ def compare_cond_plain(impl, model, rtol, where=""):
                     return f"{where} cond.{name}[{i}][{j}]: implementation {a!r} vs model {fb!r} (scale {mx:.3g})", None
                 out_w = max(out_w, abs(a - fb) / tol * rtol)
     return None, out_w
+
+
+def coq_spec_smooth(c, states):
+    grid = c["grid"]
+    dts = [grid[i + 1] - grid[i] for i in range(len(grid) - 1)]
+    sts = "[" + "; ".join(coq_state(c, e) for e in states[1:]) + "]"
+    return f"spec_smooth_run {coq_config(c)} {coq_state(c, states[0])} {sts} {lib.qclist(dts)}"
